@@ -10,15 +10,19 @@ import props
 def main():
     ctx = fw.Ctx('setup', 'quick', 0)
     gens = []
+    targets = []
     for m in pkgutil.iter_modules(props.__path__):
         mod = importlib.import_module(f'props.{m.name}')
+        if not mod.META.get('claimed', True):
+            continue   # work in progress: not built by setup, not in the manifest
+        targets.append(mod.META['props'][:-2] + '.vo')
         for g in getattr(mod, 'GENERATORS', ()):
             if g not in gens:
                 gens.append(g)
     with fw.coq_lock():
         for g in gens:
             g(ctx)
-        rc, log = fw.make([], timeout=3000)
+        rc, log = fw.make(sorted(set(targets)), timeout=3000)
     print(log[-3000:])
     if rc != 0:
         sys.exit(rc)
